@@ -83,6 +83,7 @@ ASSUMPTIONS = ["one physical exit per device; balls only enter a device when a s
 
 STARVED_SIG = "stuck:source-not-woken-after-incoming-ball-lost:two-sources"
 STARVED2_SIG = "stuck:source-not-woken-after-incoming-ball-lost:incoming-timeout"
+RESTORE_SIG = "stuck:path-restored-through-empty-source:two-sources"
 KNOWN_SIG = "fired-into-full-device:two-sources"      # D16, only for the two_src topology with a ball from the other source
 OUTCOMES = ["ok"] * 7 + ["fallback", "stuck", "late", "astray"]
 
@@ -450,6 +451,16 @@ def starved_case():
             "ops": [["add_ball"], ["add_ball"], ["wait", 64], ["lock", False]]}
 
 
+def restore_empty_source_case():
+    """witness of the third two-sources finding (found by the thorough C04 stream, seed 3): trough and lock fire at the plunger
+    in the same instant (D16), the trough's ball goes astray, the lock's ball arrives and is taken for the trough's; the lock's
+    eject is declared lost and the path restored by asking the lock - which is empty - for another ball"""
+    return {"p": {"balls": 4, "eject_to": 2000, "idle_to": 2000, "missing_to": 4000, "slots": 5, "topo": "two_src", "tries_lock": 3, "tries_plunger": 3, "tries_trough": 3},
+            "timing": {"fallback": 0.75, "late": 0.5, "leave": 0.0625, "transit": 0.75, "pf_switch": True},
+            "outcomes": {"lock": ["ok", "ok", "astray", "ok", "ok", "ok"], "plunger": ["ok", "ok", "ok", "ok", "ok", "ok", "ok", "ok"], "trough": ["ok", "ok", "astray", "ok", "ok", "stuck", "ok", "ok"]},
+            "ops": [["add_ball"], ["rest"], ["lock", False], ["add_ball"], ["add_ball"]]}
+
+
 def starved_chain_case():
     """witness of the same finding by the session-3 route (found by the C05 stream, seed 1, shrunk): chain topology, the plunger
     confirms its ejects by an event; the first ball requested for the lock goes astray after the lane-exit signal (registered as
@@ -545,7 +556,7 @@ def shrink(case, sig):
         return case
 
 
-LISTED = (KNOWN_SIG, STARVED_SIG, STARVED2_SIG) + WITNESS_SIGS      # classes with a directed witness: never shrunk, never stop the run
+LISTED = (KNOWN_SIG, STARVED_SIG, STARVED2_SIG, RESTORE_SIG) + WITNESS_SIGS      # classes with a directed witness: never shrunk, never stop the run
 
 
 def eval_case(ctx, case, model, focus):
@@ -601,6 +612,8 @@ def run(ctx, focus="C04", ident=ID):
                 ctx.notes.setdefault("witnesses", {})[sig] = [f[0] for f in res.failures]
         else:
             eval_case(ctx, starved_case(), model, focus)
+            res = eval_case(ctx, restore_empty_source_case(), model, focus)
+            ctx.notes["restore_empty_source_case"] = [f[0] for f in res.failures]
             res = eval_case(ctx, starved_chain_case(), model, focus)
             ctx.notes["starved_chain_case"] = [f[0] for f in res.failures]
         for weak in (False, True):
